@@ -14,6 +14,7 @@ import copy
 from .. import specgen as sg
 from .. import monitors as M
 from .. import world
+from .. import units
 from ..core import Result
 from ..ref import dense as D
 from . import common
@@ -32,7 +33,7 @@ REAL = common.REAL_ALL
 STUBS = common.STUBS_ALL
 INTERLEAVING_MEASURE = 'distinct (monitor kind, mode, number of updates or batches) tuples'
 PROBES = ['law_not_eventually', 'law_not_once', 'law_implies', 'law_eventually_eventually', 'law_once_once', 'law_since_expansion',
-          'law_until_expansion', 'unbounded_version', 'online', 'pastified', 'dense_time', 'stateful_operand']
+          'law_until_expansion', 'unbounded_version', 'online', 'pastified', 'dense_time', 'stateful_operand', 'bounds_with_explicit_units']
 
 LAWS = ['not_eventually', 'not_once', 'implies', 'eventually_eventually', 'once_once', 'since_expansion', 'until_expansion']
 
@@ -105,28 +106,57 @@ def gen(rng, tier):
     else:
         sc['n'] = rng.randint(1, 10) + (int(sg.horizon(lhs)) if pastify else 0)
         sc['data'] = world.gen_trace(rng, vars_, sc['n'])
-        common.add_clock(rng, sc)
+        if rng.random() < 0.25:
+            # the bounds of both sides are written with explicit units, each bound in a style of its own
+            nt = units.gen_notation(rng, p_plain=0.3)
+            nt['style'] = 'random'
+            sc['notation'] = nt
+            sc['style_seed'] = rng.randrange(1 << 30)
+            try:
+                texts_of(sc, lhs, rhs)
+            except ValueError:
+                sc['notation'] = None
+        if not sc.get('notation'):
+            common.add_clock(rng, sc)
     return sc
+
+
+def texts_of(sc, lhs, rhs):
+    dense = sc['kind'].startswith('ct')
+    if dense:
+        return common.dense_text(lhs), common.dense_text(rhs)
+    nt = sc.get('notation')
+    if nt:
+        import random
+        srng = random.Random(sc.get('style_seed', 0))
+        bp = units.bounds_printer(nt, srng)
+        return 'out = ' + sg.to_text(lhs, None, bp) + ';', 'out = ' + sg.to_text(rhs, None, bp) + ';'
+    return 'out = ' + sg.to_text(lhs) + ';', 'out = ' + sg.to_text(rhs) + ';'
 
 
 def eqn(a, b):
     return M.num_eq(a, b) or (a != a and b != b)
 
 
-def feed(sc, ast, r):
+def feed(sc, ast, r, text):
     dense = sc['kind'].startswith('ct')
-    text = common.dense_text(ast) if dense else 'out = ' + sg.to_text(ast) + ';'
     desc = {'cls': sc['kind'], 'vars': common.var_decls(sc['vars']), 'spec': text, 'pastify': sc['pastify']}
+    nt = sc.get('notation') if not dense else None
+    if nt:
+        desc.update(units.spec_config(nt))
+        stamps = units.stamps(nt, sc['n'])
+    elif not dense:
+        stamps = common.stamps_of(sc)
     mon = M.build(desc)
     r.api_calls += 2
     if sc['kind'] == 'dt_off':
-        return [p[1] for p in M.dt_evaluate(mon, common.stamps_of(sc), sc['data'])], text
+        return [p[1] for p in M.dt_evaluate(mon, stamps, sc['data'])], text
     if sc['kind'] == 'ct_off':
         return M.ct_evaluate(mon, sc['signals'], sc['vars']), text
     if sc['kind'] == 'dt_on':
         out = []
         for i in range(sc['n']):
-            out.append(M.dt_update(mon, common.stamps_of(sc)[i], [(v, sc['data'][v][i]) for v in sc['vars']]))
+            out.append(M.dt_update(mon, stamps[i], [(v, sc['data'][v][i]) for v in sc['vars']]))
             d = M.state_digest(mon)
             if d:
                 r.states.add(d)
@@ -154,8 +184,16 @@ def run(sc):
         r.discarded = True
         return r
     try:
-        a, ta = feed(sc, lhs, r)
-        b, tb = feed(sc, rhs, r)
+        ta, tb = texts_of(sc, lhs, rhs)
+    except ValueError:
+        sc = dict(sc, notation=None)           # (a shrunk bound is not printable in this notation any more)
+        ta, tb = texts_of(sc, lhs, rhs)
+    if sc.get('notation') and not dense:
+        r.probes['bounds_with_explicit_units'] += 1
+        r.faults['unit_notation_non_default'] += 1
+    try:
+        a, ta = feed(sc, lhs, r, ta)
+        b, tb = feed(sc, rhs, r, tb)
     except M.ApiCrash as e:
         r.crashes[e.exc_type] += 1
         r.violate('api-raised', law=sc['law'], kind=sc['kind'], lhs=sg.to_text(lhs), rhs=sg.to_text(rhs), **e.describe())
